@@ -713,6 +713,82 @@ func concScenarios(quick bool) []*mc.Scenario {
 	return scs
 }
 
+// ---------------------------------------------------------------------------------------------
+// panics in user code run while a write is in progress (middleware constructors)
+// ---------------------------------------------------------------------------------------------
+
+type boomVal struct{}
+
+// evalPanicCall: seed {GET /a, GET /a/b}; one write entry point is called with a route option whose
+// middleware constructor panics; afterwards nothing of the write is visible and a new write
+// transaction is accepted and commits.
+func evalPanicCall(entry string) (string, string) {
+	f, _ := fox.New()
+	h := fx.VerHandler(1)
+	f.MustHandle("GET", "/a", h, fx.WithVer(1))
+	f.MustHandle("GET", "/a/b", h, fx.WithVer(1))
+	bad := fox.WithMiddleware(func(next fox.HandlerFunc) fox.HandlerFunc { panic(boomVal{}) })
+	before := hist.Observe(f, poolPrefix)
+	var pv any
+	func() {
+		defer func() { pv = recover() }()
+		switch entry {
+		case "Router.Handle":
+			f.Handle("GET", "/a/c", h, bad)
+		case "Router.Update":
+			f.Update("GET", "/a", h, bad)
+		case "Router.NewRoute+HandleRoute":
+			rt, _ := f.NewRoute("/a/c", h, bad)
+			f.HandleRoute("GET", rt)
+		case "Updates{Handle ok; Handle panicking}":
+			f.Updates(func(txn *fox.Txn) error {
+				txn.Handle("GET", "/a/c", h)
+				txn.Handle("GET", "/a/{x}", h, bad)
+				return nil
+			})
+		case "Updates{Delete; Update panicking}":
+			f.Updates(func(txn *fox.Txn) error {
+				txn.Delete("GET", "/a/b")
+				txn.Update("GET", "/a", h, bad)
+				return nil
+			})
+		case "Txn(true){Handle panicking} with deferred Abort":
+			func() {
+				txn := f.Txn(true)
+				defer txn.Abort()
+				txn.Handle("GET", "/a/c", h)
+				txn.Handle("GET", "/a/{x}", h, bad)
+				txn.Commit()
+			}()
+		}
+	}()
+	desc := "middleware constructor panicking during " + entry + " on {GET /a, GET /a/b}"
+	if _, ok := pv.(boomVal); !ok {
+		return "panic-swallowed", fmt.Sprintf("the panic did not propagate unchanged (got %v): %s", pv, desc)
+	}
+	var after string
+	var lockErr any
+	func() {
+		defer func() { lockErr = recover() }()
+		after = hist.Observe(f, poolPrefix)
+	}()
+	if lockErr != nil || after != before {
+		return "not-atomic", fmt.Sprintf("after the panic the router reads\n%s    want the state before (%v)\n%s    %s", ind(after), lockErr, ind(before), desc)
+	}
+	func() {
+		defer func() { lockErr = recover() }()
+		if err := f.Updates(func(txn *fox.Txn) error { _, err := txn.Handle("GET", "/after", h); return err }); err != nil {
+			lockErr = err
+		}
+	}()
+	if lockErr != nil || !f.Has("GET", "/after") {
+		return "no-new-txn", fmt.Sprintf("a new write transaction is not accepted after the panic (%v): %s", lockErr, desc)
+	}
+	return "", ""
+}
+
+var panicEntries = []string{"Router.Handle", "Router.Update", "Router.NewRoute+HandleRoute", "Updates{Handle ok; Handle panicking}", "Updates{Delete; Update panicking}", "Txn(true){Handle panicking} with deferred Abort"}
+
 func init() {
 	mc.Register(&mc.Check{
 		ID:    "C04",
@@ -740,6 +816,31 @@ func init() {
 					return "bad case"
 				}
 				_, msg := evalCase(cs, map[string]string{})
+				return msg
+			}},
+			{Name: "panics", Run: func(c *mc.Ctx, r *mc.Result) {
+				if c.Shard != 0 {
+					return
+				}
+				un := mc.DeterministicPools()
+				defer un()
+				r.Bounds["panics"] = fmt.Sprintf("%d write entry points (direct calls and managed / manual transactions) with a middleware constructor panicking while the route is built", len(panicEntries))
+				for _, e := range panicEntries {
+					class, msg := evalPanicCall(e)
+					r.Evaluations++
+					r.DistinctNontrivial++
+					if class != "" {
+						r.Violate("panics", class, msg, e)
+					}
+				}
+			}, Replay: func(c *mc.Ctx, raw json.RawMessage) string {
+				un := mc.DeterministicPools()
+				defer un()
+				var e string
+				if err := json.Unmarshal(raw, &e); err != nil {
+					return "bad case"
+				}
+				_, msg := evalPanicCall(e)
 				return msg
 			}},
 			{Name: "concurrent", Run: func(c *mc.Ctx, r *mc.Result) {
